@@ -3,6 +3,7 @@
 // the simulator's clock).  Oracle = the statement, computed independently in host byte order.
 #include "sim/harness.h"
 #include "sim/simnet.h"
+#include "sim/scenario.h"
 #include "glue/unit_api.h"
 #include <arpa/inet.h>
 #include <set>
@@ -58,7 +59,7 @@ static std::string check_config(uint32_t server_h, int m, uint32_t lookup_probe,
 
 static const uint32_t BASES[] = {0x00000000u, 0x0A000000u, 0xAC100500u, 0xC0A8FF00u, 0xFFFFFF00u, 0x7F000000u, 0xE0000000u};
 
-static CaseResult run_case(Tape &t)
+static CaseResult config_case(Tape &t)
 {
 	CaseResult r;
 	int m = t.range(8, 30);
@@ -126,10 +127,78 @@ static bool exhaustive(Stats &st, std::string &msg)
 	return true;
 }
 
+// history case: slots are handed out (find_available_user), logged in, go silent, expire and are handed out again; after
+// every step every tunnel address is looked up and must resolve to its slot exactly when that slot's *current* session is
+// logged in and was active within 58 s (>= 62 s: never; in between: not judged)
+static CaseResult history_case(Tape &t)
+{
+	CaseResult r;
+	int m = t.pick({3, 2, 2, 1}) == 0 ? 27 : t.range(26, 30);
+	uint32_t server = 0x0A000000u + 1 + t.below(3);
+	v_users_free();
+	int n = v_init_users(htonl(server), m);
+	struct M { bool active = false, auth = false; uint64_t last = 0; };
+	std::vector<M> model((size_t)n);
+	sim::W.now = 5000000;
+	int nsteps = t.range(3, 60), handed = 0, relogin = 0, expired_reuse = 0;
+	std::string hist;
+	for (int k = 0; k < nsteps && r.ok; k++) {
+		switch (t.pick({4, 4, 3, 3})) {
+		case 0: {   // a new client asks for a slot
+			int got = v_find_available_user();
+			bool any_free = false, all_young = true;
+			for (int i = 0; i < n; i++) { uint64_t silent = sim::W.now - model[i].last; if (!model[i].active || silent >= 62000000ull) any_free = true; if (!model[i].active || silent > 58000000ull) all_young = false; }
+			if (got < 0) { if (any_free) r.fail("C18:no-slot-although-free", scn::fmt("find_available_user returned -1 although a slot is unused or silent >= 62 s (step %d)", k)); }
+			else if (got >= n) r.fail("C18:slot-out-of-range", "slot index out of range");
+			else {
+				uint64_t silent = sim::W.now - model[got].last;
+				if (model[got].active && silent <= 58000000ull) r.fail("C18:live-slot-handed-out", scn::fmt("slot %d was handed out again %.1f s after its session was last active", got, silent / 1e6));
+				if (all_young) r.fail("C18:live-slot-handed-out", "a slot was handed out although every slot was active within 58 s");
+				if (model[got].active) expired_reuse++;
+				model[got].active = true; model[got].auth = false; model[got].last = sim::W.now; handed++;
+				hist += scn::fmt(" alloc->%d", got);
+			}
+			break;
+		}
+		case 1: {   // the session on a slot logs in (what the login handler does: authenticated = 1, last_pkt = now)
+			int i = (int)t.below((uint32_t)n);
+			if (!model[i].active || sim::W.now - model[i].last > 58000000ull) break;
+			v_user_set(i, 1, 1, 0, (long)sim::W.wall());
+			model[i].auth = true; model[i].last = sim::W.now; relogin++;
+			hist += scn::fmt(" login(%d)", i);
+			break;
+		}
+		case 2: {   // traffic from a logged-in session refreshes it
+			int i = (int)t.below((uint32_t)n);
+			if (!model[i].active || !model[i].auth || sim::W.now - model[i].last > 58000000ull) break;
+			v_user_set(i, 1, 1, 0, (long)sim::W.wall()); model[i].last = sim::W.now;
+			break;
+		}
+		default: { static const uint64_t DT[] = {1000000, 10000000, 30000000, 58000000, 62000000, 70000000}; uint64_t dt = DT[t.below(6)]; sim::W.now += dt; hist += scn::fmt(" +%llus", (unsigned long long)(dt / 1000000)); break; }
+		}
+		// lookups
+		for (int i = 0; i < n && r.ok; i++) {
+			int got = v_find_user_by_ip(v_user_ip(i));
+			uint64_t silent = sim::W.now - model[i].last;
+			bool live = model[i].active && model[i].auth && silent <= 58000000ull;
+			bool dead = !model[i].active || !model[i].auth || silent >= 62000000ull;
+			if (live && got != i) r.fail("C18:lookup-misses-live-session", scn::fmt("lookup of the address of slot %d returned %d although its session is logged in and active (step %d:%s)", i, got, k, hist.c_str()));
+			if (dead && got != -1) r.fail("C18:lookup-finds-dead-session", scn::fmt("lookup of the address of slot %d returned %d although its current session is %s (step %d:%s)", i, got, !model[i].active ? "unused" : (!model[i].auth ? "not logged in" : "silent >= 62 s"), k, hist.c_str()));
+		}
+	}
+	r.render = scn::fmt("history: /%d server .%u, %d steps, %d slots handed out, %d logins, %d re-issued after expiry:%s", m, server & 255, nsteps, handed, relogin, expired_reuse, hist.substr(0, 300).c_str());
+	r.nontrivial = expired_reuse >= 1 && relogin >= 1;
+	r.cls("history"); if (expired_reuse) r.cls("slot-re-issued-after-expiry");
+	sim::W.now = 0;
+	return r;
+}
+
+static CaseResult run_case(Tape &t) { return t.pick({2, 1}) == 0 ? config_case(t) : history_case(t); }
+
 int main(int argc, char **argv)
 {
 	for (int i = 1; i + 1 < argc; i++) if (!strcmp(argv[i], "--level")) level = atoi(argv[i + 1]);
-	PropDef d; d.id = "C18"; d.run = run_case; d.exhaustive = exhaustive; d.tape_scale = 0.3;
+	PropDef d; d.id = "C18"; d.run = run_case; d.exhaustive = exhaustive; d.tape_scale = 1.5;
 	int rc = harness_main(argc, argv, d);
 	v_users_free();
 	return rc;
